@@ -177,7 +177,7 @@ def minrange(ctx, rule='C19-R4'):
     f = p.func(q, rule)
     ctx.saw(f)
     evs = fx.deep_events(q)
-    rets = [e for e in evs if e.kind == 'return' and not e.ctx]
+    rets = split_alternatives([e for e in evs if e.kind == 'return' and not e.ctx])
     mn = ('call', ('g', 'numpy.nanmin'), (V,), ())
     mx = ('call', ('g', 'numpy.nanmax'), (V,), ())
     mr = ('p', 'min_range')
@@ -383,4 +383,4 @@ def given_parameters_honoured(ctx, rule='C19-R7'):
                   f"test of the given value, so that a legitimate {key} of 0 counts as not given - do() then shifts by the "
                   'data maximum, undo() refuses, and the pair is no longer forward / backward',
                   instance=f"convert_kwargs: default '{key}' only when the key is absent")
-    ctx.floor(rule, 'data-derived defaults stored by convert_kwargs', n, 4)
+    ctx.floor(rule, 'data-derived defaults stored by convert_kwargs', n, 2)
